@@ -817,7 +817,7 @@ func genHeaderMon(c *ctx) *gen {
 		}
 		// every field is part of the identity
 		muts := headerMuts()
-		for _, k := range []int{r.Intn(len(muts)), r.Intn(len(muts)), r.Intn(len(muts)), r.Intn(len(muts))} {
+		for k := range muts {
 			m := types.CopyHeader(h)
 			muts[k].f(m, r)
 			mb, _ := marshalHeader(m)
